@@ -132,6 +132,7 @@ def run(ctx):
                        "the serial kdtree result itself is validated against the reference distance in C04 and in the JoinLimited sessions here"]
     # ---- M
     ctx.mc("MCKdPool", "KdPool_mc.cfg", workers=16)
+    ctx.mc("MCKdPool", "KdPool_live.cfg", workers=8)        # liveness under weak fairness: AllCallsReturn, EveryChunkFinishes
     for dev, inv in (("chunk0", ["NoError"]), ("fork_before_set", ["NoStaleParams", "ResultIsSerial", "AllResultsSerial"]),
                      ("unordered", ["ResultIsSerial", "AllResultsSerial"])):
         neg_cfg(ctx, dev, inv)
